@@ -181,7 +181,18 @@ func TestEveryStatementDescribes(t *testing.T) {
 					wantParams = append(wantParams, oidsForGoType(t, mt.In(a))...)
 				}
 				key := qp.dir + "." + q.Name
-				if !reflect.DeepEqual(append([]uint32{}, sd.ParamOIDs...), append([]uint32{}, wantParams...)) {
+				// sqlc types LIMIT parameters as int32; PostgreSQL (and the
+				// fake) describe them as int8, and pgx encodes a Go int32 for
+				// an int8 parameter. Accept exactly that widening for
+				// parameters that are used in LIMIT.
+				gotParams := append([]uint32{}, sd.ParamOIDs...)
+				for pi := range gotParams {
+					if pi < len(wantParams) && gotParams[pi] == uint32(TInt8) && wantParams[pi] == uint32(TInt4) &&
+						strings.Contains(q.SQL, fmt.Sprintf("LIMIT $%d", pi+1)) {
+						wantParams[pi] = uint32(TInt8)
+					}
+				}
+				if !reflect.DeepEqual(gotParams, append([]uint32{}, wantParams...)) {
 					if why, ok := knownSqlcMismatch[key]; ok {
 						t.Logf("%s: known mismatch (%s): got %v want %v", q.Name, why, sd.ParamOIDs, wantParams)
 					} else {
@@ -315,6 +326,12 @@ func TestEveryStatementExecutes(t *testing.T) {
 					t.Logf("%s %s: known sqlc/PostgreSQL mismatch: %v", phase, name, err)
 					return
 				}
+				// `SELECT max(eons.eon)::INT` is NULL when no row matches; the
+				// generated code scans it into an int32 and fails client-side
+				// (with PostgreSQL as well).
+				if name == "GetLatestEonForKeyperConfig" && strings.Contains(err.Error(), "cannot scan null into *int32") {
+					return
+				}
 				st := sqlState(err)
 				for _, a := range allowed {
 					if st == a {
@@ -326,15 +343,10 @@ func TestEveryStatementExecutes(t *testing.T) {
 
 			// (a) empty database: every reader, updater and deleter
 			for _, q := range queries {
-				if strings.HasPrefix(q.Name, "Insert") || strings.HasPrefix(q.Name, "Schedule") {
+				if isWriter(q.Name) && !strings.HasPrefix(q.Name, "Update") && !strings.HasPrefix(q.Name, "Increment") && !strings.HasPrefix(q.Name, "Reset") {
 					continue
 				}
-				err := callQuery(ctx, qv, q.Name, 0)
-				// GetLatestEonForKeyperConfig scans NULL into int32 on an empty table (client side).
-				if err != nil && q.Name == "GetLatestEonForKeyperConfig" && strings.Contains(err.Error(), "cannot assign") || (err != nil && strings.Contains(err.Error(), "converting NULL")) {
-					continue
-				}
-				check("empty", q.Name, err)
+				check("empty", q.Name, callQuery(ctx, qv, q.Name, 0))
 			}
 			// (b) populate: all writers, two variants each, in name order
 			// (parents happen to sort before children)
@@ -366,7 +378,15 @@ func TestEveryStatementExecutes(t *testing.T) {
 					continue
 				}
 				err := callQuery(ctx, qv, q.Name, 0)
-				if hasOnConflict[q.Name] {
+				if q.Name == "InsertMultipleTransactionsAndUpsertCommitment" {
+					// All transactions already exist, so the first CTE returns no
+					// row, ARRAY_AGG over zero rows is NULL and the commitment
+					// insert violates NOT NULL (checked before ON CONFLICT is
+					// considered) -- PostgreSQL behaves the same.
+					if sqlState(err) != codeNotNull {
+						t.Errorf("rewrite: %s: expected 23502, got %v", q.Name, err)
+					}
+				} else if hasOnConflict[q.Name] {
 					check("rewrite", q.Name, err)
 				} else {
 					check("rewrite", q.Name, err, codeUnique)
